@@ -196,6 +196,20 @@ def parameters(E, self, recurse=True):
     return [p for _, p in named_parameters(E, self, recurse=recurse)]
 
 
+def module_requires_grad_(E, self, requires_grad=True):
+    """nn.Module.requires_grad_ (A-TORCH-NN): sets the flag of every parameter of the module and of its submodules; returns the module."""
+    if not isinstance(requires_grad, bool):
+        raise Unsupported("Module.requires_grad_ with a symbolic flag")
+    for _, p in named_parameters(E, self):
+        if isinstance(p, STensor):
+            p.requires_grad = requires_grad
+        elif is_wrapper(p):
+            p.fields["_w_requires_grad"] = requires_grad
+        else:
+            raise Unsupported("Module.requires_grad_ on an unmodelled parameter")
+    return self
+
+
 def get_submodule(E, self, target):
     if target == "":
         return self
@@ -319,6 +333,7 @@ def install(E):
         MODULE_CLS.ns[nm] = Builtin("Module." + nm, fn)
     CONV2D_CLS.ns["_conv_forward"] = Builtin("Conv2d._conv_forward", conv_forward)
     MODULE_CLS.ns["to"] = Builtin("Module.to", module_to)
+    MODULE_CLS.ns["requires_grad_"] = Builtin("Module.requires_grad_", module_requires_grad_)
     MODULE_CLS.ns["to_empty"] = Builtin("Module.to_empty", lambda E2, self, *a, **k: self)
     MODULE_CLS.ns["__init__"] = Builtin("Module.__init__", module_init)
     MODULE_CLS.ns["register_buffer"] = Builtin("Module.register_buffer", register_buffer)
